@@ -2184,6 +2184,11 @@ class KmipEngine(object):
         # TODO (peterhamilton): Pull cryptographic parameters from the keying
         # object if none are provided with the payload
         crypto_parameters = derivation_parameters.cryptographic_parameters
+        if crypto_parameters is None:
+            raise exceptions.InvalidField(
+                "The cryptographic parameters must be provided in the "
+                "derivation parameters."
+            )
         derived_data = self._cryptography_engine.derive_key(
             derivation_method=payload.derivation_method,
             derivation_length=derivation_length,
